@@ -288,6 +288,25 @@ def run(chk: core.Check, replay=None) -> None:
             chk.stratum("wind_changes_inside_zero_distance")
         if case["cfg"].get("cMaxIterations"):
             chk.stratum("small_iteration_cap_" + info["outcome"].split(":")[0])
+    # ---- a calculator with a history: after a zero on one sight line, a zero on a very different one (steep downhill, then long and
+    #      level from a low station; steep uphill, then downhill; twice the same) - each second zeroing gives exactly what a fresh
+    #      calculator gives, and in particular does not fail
+    m = impl.pb()
+    U = m.Unit
+    base_p = {"table": "G7", "bc": 0.3, "mv_fps": 2800.0, "sight_in": 2.0, "alt_ft": 0.0, "winds": [], "cant_deg": 0.0}
+    for (l1, d1), (l2, d2) in (((-40.0, 200.0), (0.0, 1000.0)), ((45.0, 300.0), (-10.0, 900.0)), ((-45.0, 150.0), (3.0, 1300.0)), ((0.0, 100.0), (0.0, 100.0))):
+        core.reset_world()
+        used = shots.build_calc({"max_calc_step_size_feet": 2.0})
+        o1 = impl.outcome(used.set_weapon_zero, shots.build_shot(dict(base_p, look_deg=l1)), U.Yard(d1))
+        o2 = impl.outcome(used.set_weapon_zero, shots.build_shot(dict(base_p, look_deg=l2)), U.Yard(d2))
+        fresh = impl.outcome(shots.build_calc({"max_calc_step_size_feet": 2.0}).set_weapon_zero, shots.build_shot(dict(base_p, look_deg=l2)), U.Yard(d2))
+        chk.count(1, ("history", l1, d1, l2, d2))
+        chk.stratum("zero_after_a_zero_on_another_sight_line")
+        same = o2[0] == fresh[0] and (o2[0] != "ok" or float(o2[1].raw_value).hex() == float(fresh[1].raw_value).hex())
+        if not same:
+            chk.violation("C02.ZeroDependsOnEarlierZeroing", {"first": [l1, d1], "second": [l2, d2]},
+                          {"first_outcome": o1[0] if o1[0] == "ok" else o1[1], "second_on_used_calculator": repr(o2[1])[:120],
+                           "second_on_fresh_calculator": repr(fresh[1])[:120]})
     fails = core.validate_trace(chk, "Trace_ZeroFinder", lines, "set_weapon_zero calls")
     chk.traces += n
     for tid, clause in fails:
@@ -300,7 +319,7 @@ def run(chk: core.Check, replay=None) -> None:
                                "converging_linearly": info.get("converging_linearly")}, info)
     chk.sample({k: v for k, v in infos[1].items()})
     chk.sample({"trace_lines": lines[:4]})
-    chk.require_strata(["unreachable_below_the_altitude_floor", "reachable", "unreachable", "look_level", "look_mild", "look_steep",
+    chk.require_strata(["zero_after_a_zero_on_another_sight_line", "unreachable_below_the_altitude_floor", "reachable", "unreachable", "look_level", "look_mild", "look_steep",
                         "miss_observed", "previous_zero_nonzero", "small_iteration_cap_ZeroErr", "wind_changes_inside_zero_distance", "steep_and_long"])
     chk.exhaustive = False
     chk.rule.append("seeded un-canted shots (G1/G7/.. tables, 600-4000 fps, sight heights -2..6 in, look angles 0, +-5..+-59 deg, 0-2 "
